@@ -18,7 +18,8 @@ class ExprMixin:
         if isinstance(node, ast.Name):
             v = self.lookup_name(st, node.id, node)
             if v is None:
-                if node.id in st.env and st.env[node.id] is UNBOUND:
+                if (node.id in st.env and st.env[node.id] is UNBOUND) or \
+                        (node.id not in st.env and node.id in getattr(self, 'fn_locals', ()) and len(self.cur_fn_stack) == 1):
                     self.prove(st, z3.BoolVal(False), 'noraise', line, 'unbound-local:' + node.id)
                     st.dead = True
                     return
